@@ -335,6 +335,11 @@ func (f *Func) reachTarget(
 ) (map[interface{}]reflect.Value, error) {
 	log.Trace("reachTarget", "target", target)
 
+	// Track the functions we're in the middle of reaching so that a path
+	// leading back through any of them is detected as a cycle.
+	state.Reaching[graph.VertexID(target)] = struct{}{}
+	defer delete(state.Reaching, graph.VertexID(target))
+
 	// argMap will store all the values that this target depends on.
 	argMap := map[interface{}]reflect.Value{}
 
@@ -413,7 +418,9 @@ func (f *Func) reachTarget(
 
 		// If the path contains ourself, then this target is unsatisfied.
 		for _, v := range paths[i] {
-			if v == target {
+			_, isFunc := v.(*funcVertex)
+			_, reaching := state.Reaching[graph.VertexID(v)]
+			if v == target || (isFunc && reaching) {
 				valueable, ok := current.(valueConverter)
 				if !ok {
 					// This shouldn't be possible
@@ -632,6 +639,10 @@ type callState struct {
 
 	// TODO
 	InputSet map[interface{}]graph.Vertex
+
+	// Reaching is the set of function vertices that are currently being
+	// reached (reachTarget is on the stack for them).
+	Reaching map[interface{}]struct{}
 }
 
 func newCallState() *callState {
@@ -639,5 +650,6 @@ func newCallState() *callState {
 		NamedValue: map[string]reflect.Value{},
 		TypedValue: map[reflect.Type]reflect.Value{},
 		InputSet:   map[interface{}]graph.Vertex{},
+		Reaching:   map[interface{}]struct{}{},
 	}
 }
